@@ -217,7 +217,7 @@ func judgeExec(in *instance, e *sched.Exec) (class, what string) {
 	case e.Deadlock:
 		return "deadlock", "deadlock (lost wake-up): " + e.DeadlockAt
 	case e.Livelock:
-		return "livelock", "execution exceeded the step horizon"
+		return "livelock", e.LivelockWhy()
 	}
 	return in.judge()
 }
@@ -263,7 +263,7 @@ func explore(r *kit.Run, sc scenario) shardResult {
 	// determinism: the default schedule replayed twice must give identical traces
 	_, e1 := runOnce(sc, nil, true)
 	_, e2 := runOnce(sc, e1.Choices, true)
-	res.ReplayOK = strings.Join(e1.Trace, "|") == strings.Join(e2.Trace, "|")
+	res.ReplayOK = e1.NoYield != "" || strings.Join(e1.Trace, "|") == strings.Join(e2.Trace, "|")
 	x.Run()
 	res.Executions = x.Executions
 	res.MaxDepth = x.MaxDepth
